@@ -59,6 +59,7 @@ structure Handle where
   dispatched : Nat := 0
   closing : Bool := false
   closed : Bool := false
+  ref : Bool := true         -- UV_HANDLE_REF (uv_ref / uv_unref)
   gen : Nat := 0             -- ghost: incarnation
 deriving DecidableEq, Repr
 
@@ -154,20 +155,26 @@ inductive Op
   | oneshot (h sig : Nat)
   | stop (h : Nat)
   | close (h : Nat)
+  | ref (h : Nat)
+  | unref (h : Nat)
 deriving DecidableEq, Repr
 
 def Op.handle : Op → Nat
-  | .start h _ | .oneshot h _ | .stop h | .close h => h
+  | .start h _ | .oneshot h _ | .stop h | .close h | .ref h | .unref h => h
 
-/-- API call; `none` = skipped because the handle is closing (an `assert` in libuv: the harness
-does not make such calls). -/
+/-- `uv_ref` / `uv_unref`: only the flag (the `active_handles` counter is derived, see `alive`) -/
+def setRef (s : S) (h : Nat) (r : Bool) : S := { s with hs := upd s.hs h { s.hs h with ref := r } }
+
+/-- API call; `none` = skipped: start/stop/close on a closing handle are `assert`s in libuv (the
+harness does not make such calls); ref/unref are legal until the handle memory is released. -/
 def applyOp (s : S) (o : Op) : S × Option Int :=
-  if (s.hs o.handle).closing then (s, none) else
   match o with
-  | .start h sig => let r := sigStart s h sig false; (r.1, some r.2)
-  | .oneshot h sig => let r := sigStart s h sig true; (r.1, some r.2)
-  | .stop h => (sigStop s h, some 0)
-  | .close h => (uvClose s h, some 0)
+  | .ref h => if (s.hs h).closed then (s, none) else (setRef s h true, some 0)
+  | .unref h => if (s.hs h).closed then (s, none) else (setRef s h false, some 0)
+  | .start h sig => if (s.hs h).closing then (s, none) else let r := sigStart s h sig false; (r.1, some r.2)
+  | .oneshot h sig => if (s.hs h).closing then (s, none) else let r := sigStart s h sig true; (r.1, some r.2)
+  | .stop h => if (s.hs h).closing then (s, none) else (sigStop s h, some 0)
+  | .close h => if (s.hs h).closing then (s, none) else (uvClose s h, some 0)
 
 def runOps (s : S) : List Op → S
   | [] => s
@@ -228,9 +235,10 @@ def finishClose (s : S) (h : Nat) : S :=
 def runClosing (s : S) (L : Nat) : S :=
   (s.closingQ L).foldl finishClose { s with closingQ := upd s.closingQ L [] }
 
-/-- `uv__loop_alive` restricted to signal handles -/
+/-- `uv__loop_alive` restricted to signal handles: `active_handles` counts the started handles that
+are referenced (uv__handle_start / uv__handle_ref / uv__handle_unref), plus `closing_handles != NULL` -/
 def alive (s : S) (L : Nat) : Bool :=
-  s.tree.any (fun k => k.loop = L) || !(s.closingQ L).isEmpty
+  s.tree.any (fun k => k.loop = L && (s.hs k.id).ref) || !(s.closingQ L).isEmpty
 
 /-- `uv_run(L, UV_RUN_NOWAIT)` -/
 def runLoop (sc : Script) (s : S) (L : Nat) : S :=
